@@ -101,8 +101,7 @@ def _dump(con) -> dict:
             "block_page": bi[0],
             "line": n["line_no"],
             "section": [t for t in bi[1]],
-            "block": bi[2],
-            "pos": in_block[n["block_id"]],
+            "block_id": n["block_id"],
             "zid": n["zid"],
             "kind": status if status is not None else "BASIC",
             "priority": n["todo_priority"],
